@@ -449,8 +449,7 @@ with dexec (fuel : nat) (x : dstmt) (l : dlocals) (m : mach) {struct fuel} : res
         tri_prim m (cur_ws s) (fun '(o, s') =>
           match o with
           | Some b => Ok (OF ((v, LByte b) :: l) (set_st m s'))
-          | None => let* o' := deval f none l (set_st m s') in
-                    match o' with OR _ _ => Ok o' | _ => Panic end
+          | None => let* o' := deval f none l (set_st m s') in ret_of o'             (* `return none` *)
           end))
     | DLet v e =>
       let* o := deval f e l m in
